@@ -29,10 +29,11 @@ theorem gen_coordinate_from_index (col row : Nat) :
 theorem gen_column_index_from_string (s : List Char) :
     column_index_from_string (fun t => resToOpt (alphaToIndex t)) s = resToOpt (columnIndexFromString s) := by
   unfold column_index_from_string columnIndexFromString
+  -- the two cases of the text, with the test in either orientation; the extern's result taken apart
   by_cases h : s = ['0']
-  · simp [h, resToOpt]
-  · simp only [h, decide_false, if_false, Bool.false_eq_true]
-    cases alphaToIndex s <;> simp [resToOpt]
+  · subst h; simp [resToOpt]
+  · have h' : ¬ ['0'] = s := fun e => h e.symm
+    cases hA : alphaToIndex s <;> simp [h, h', hA, resToOpt] <;> (repeat' split) <;> simp_all [resToOpt]
 
 theorem gen_alpha_constants :
     alpha_to_index_base_char_code = 65 ∧ alpha_to_index_positional_constants = [26 ^ 0, 26 ^ 1, 26 ^ 2] := by decide
@@ -57,15 +58,12 @@ theorem gen_alpha_to_index_term (i : Nat) (c : Char) :
 theorem gen_index_to_alpha_step (v : Nat) :
     index_to_alpha_step v = some (if v / 26 = 0 then none else some (v / 26 - 1)) := by
   unfold index_to_alpha_step
-  by_cases h : v / 26 = 0
-  · simp [h, usub]
-  · obtain ⟨k, hk⟩ : ∃ k, v / 26 = k + 1 := ⟨v / 26 - 1, by omega⟩
-    simp [hk, usub]
+  fn_eq
 
 /-- the digit of `index_to_alpha`: `BASE_CHAR_CODE + (v % 26)` is the code of the model's `letter v` -/
 theorem gen_index_to_alpha_digit (v : Nat) : Char.ofNat (index_to_alpha_digit v) = letter v := by
   unfold index_to_alpha_digit letter
-  simp only [show Char.toNat 'A' = 65 from by decide] <;> (try congr 1) <;> (try omega)
+  (try simp only [show Char.toNat 'A' = 65 from by decide]) <;> first | rfl | (congr 1; omega)
 
 /-- one unfolding of the model's `alphaRev` in terms of the compiled step and digit -/
 theorem gen_alphaRev_step (v : Nat) :
@@ -173,14 +171,11 @@ def digitSpec (v : Nat) : Nat := 65 + v % 26
 
 theorem gen_index_to_alpha_closure_0 (v : Nat) : index_to_alpha_closure_0 v = stepSpec v := by
   unfold index_to_alpha_closure_0 stepSpec
-  by_cases h : v / 26 = 0
-  · simp [h, usub]
-  · obtain ⟨k, hk⟩ : ∃ k, v / 26 = k + 1 := ⟨v / 26 - 1, by omega⟩
-    simp [hk, usub]
+  fn_eq
 
 theorem gen_index_to_alpha_closure_1 (v : Nat) : index_to_alpha_closure_1 v = digitSpec v := by
   unfold index_to_alpha_closure_1 digitSpec
-  simp only [show Char.toNat 'A' = 65 from by decide] <;> (try omega)
+  (try simp only [show Char.toNat 'A' = 65 from by decide]) <;> first | rfl | omega
 
 theorem gen_index_to_alpha_closure_2 (n : Nat) : index_to_alpha_closure_2 n = rt_char_from_u32 n := by
   unfold index_to_alpha_closure_2
@@ -228,22 +223,30 @@ theorem mapM_chars (l : List Nat) :
 theorem gen_index_to_alpha (n : Nat) : index_to_alpha n = indexToAlpha? n := by
   unfold index_to_alpha indexToAlpha?
   simp only [gen_index_to_alpha_closure_0, gen_index_to_alpha_closure_1, gen_index_to_alpha_closure_2]
-  by_cases h : n ≥ 1
-  · have h1 : 1 ≤ n := h
+  rcases Nat.eq_zero_or_pos n with h0 | hpos
+  · -- index 0: whatever the assertion is spelled like, it is a closed Boolean
+    subst h0; simp
+  · have h1 : 1 ≤ n := hpos
     have hs : rt_successors (fun x => stepSpec x) (some (n - 1)) = some (succList (n - 1)) :=
       successors_fuel (n - 1) _ (by omega)
     have hm : rt_mapM (fun x => rt_char_from_u32 x) (List.reverse (List.map (fun x => digitSpec x) (succList (n - 1)))) =
         some ((alphaRev (n - 1)).reverse) := by
       rw [← List.map_reverse]
       exact (mapM_chars _).trans (by rw [List.map_reverse, succList_letters])
-    simp [h, usub_bind, guardO, hs, hm]
-  · simp [h]
+    -- every conditional of both sides (the assertion in any spelling); excluded paths by `omega`
+    simp only [usub_bind, guardO, ite_bind', Option.bind_some, Option.bind_none]
+    repeat' split
+    all_goals (try simp only [decide_eq_true_eq, decide_eq_false_iff_not, Bool.not_eq_true', Bool.not_eq_true, Bool.not_eq_false] at *)
+    all_goals (first
+      | (exfalso; omega)
+      | rfl
+      | simp [h1, hs, hm])
 
 /-- `string_from_column_index` as it is in the source (its own assertion, then `index_to_alpha`) -/
 theorem gen_string_from_column_index (n : Nat) : string_from_column_index n = indexToAlpha? n := by
   unfold string_from_column_index
-  rw [gen_index_to_alpha]
+  simp only [gen_index_to_alpha]
   unfold indexToAlpha?
-  by_cases h : n ≥ 1 <;> simp [h]
+  fn_eq
 
 end Umya.Gen
